@@ -13,3 +13,5 @@ mod k_cut;
 mod k_backend;
 #[cfg(kani)]
 mod k_map;
+#[cfg(kani)]
+mod k_roll;
